@@ -81,6 +81,7 @@ pub struct CheckDef {
 
 thread_local! {
     static LAST_PANIC: RefCell<String> = RefCell::new(String::new());
+    static IN_GUARD: std::cell::Cell<bool> = std::cell::Cell::new(false);
 }
 
 pub fn install_panic_hook() {
@@ -101,6 +102,9 @@ pub fn install_panic_hook() {
                 format!("{}:{}", f, l.line())
             })
             .unwrap_or_default();
+        if !IN_GUARD.with(|g| g.get()) {
+            eprintln!("HARNESS-ERROR: panic outside an executor: {} at {}", msg, loc);
+        }
         LAST_PANIC.with(|p| *p.borrow_mut() = format!("{} at {}", msg, loc));
     }));
 }
@@ -108,12 +112,16 @@ pub fn install_panic_hook() {
 /// run an executor; a panic in code under test is a violation ("panic"), a panic whose message
 /// starts with "harness:" is a harness error
 pub fn guarded(exec: fn(&Scn, &mut Ctx) -> Verdict, scn: &Scn, ctx: &mut Ctx) -> Verdict {
+    IN_GUARD.with(|g| g.set(true));
     let r = catch_unwind(AssertUnwindSafe(|| exec(scn, ctx)));
+    IN_GUARD.with(|g| g.set(false));
     match r {
         Ok(v) => v,
         Err(_) => {
             let msg = LAST_PANIC.with(|p| p.borrow().clone());
-            if msg.starts_with("harness:") {
+            // a panic raised by the harness's own sources (relative path src/...) is never a finding
+            let own = msg.rsplit(" at ").next().map(|l| l.starts_with("src/")).unwrap_or(false);
+            if msg.starts_with("harness:") || own {
                 Verdict::Harness(msg)
             } else {
                 Verdict::Violation { clause: "panic".into(), detail: msg }
@@ -434,7 +442,13 @@ pub fn run_check(def: &CheckDef, opts: &RunOpts) -> i32 {
                     for r in start..(start + CHUNK).min(total) {
                         let seed = run_seed(opts.seed, def.id, r);
                         let mut rng = Rng::new(seed);
-                        let scn = (def.r#gen)(&mut rng, opts.tier_thorough);
+                        let scn = match catch_unwind(AssertUnwindSafe(|| (def.r#gen)(&mut rng, opts.tier_thorough))) {
+                            Ok(s) => s,
+                            Err(_) => {
+                                a.harness.push(format!("run {}: generator panicked: {}", r, LAST_PANIC.with(|p| p.borrow().clone())));
+                                continue;
+                            }
+                        };
                         let (v, ctx, fp) = run_once(def, &scn);
                         let st = simcipher::env_stats();
                         a.evaluations += 1;
